@@ -24,7 +24,7 @@ Fail == /\ Have /\ ~ENABLED Match
         /\ row' = [p \in Paths |-> NoRow]
         /\ l' = l + 1 /\ UNCHANGED tid /\ Say("DIVERGENCE", Ev.act.op)
 Judge == /\ ((\A s \in Stores : C01_Addressed(s, store'[s])) \/ Say("VERDICT", "ContentFiledUnderWrongName"))
-         /\ ((\A s \in Stores : C01_Protected(store'[s], prot'[s])) \/ Say("VERDICT", "LocalObjectNotReadOnly"))
+         /\ ((\A s \in LocalStores : C01_Protected(store'[s], prot'[s])) \/ Say("VERDICT", "LocalObjectNotReadOnly"))
          /\ (Ev.dirs_ok \/ Say("VERDICT", "DirectoryObjectNameMismatch"))
          /\ (Ev.aliens = <<>> \/ Say("VERDICT", "UnknownContentInStore"))
 TraceNext == (Match \/ Fail) /\ Judge
